@@ -661,6 +661,11 @@ def enum_inputs(tier):
         out.append(make_input("nfile", data, "enum_ncmd", lab, ig=(i % len(IG_OPTS)) if tier == "thorough" else (i % 2)))
     for i, nf in enumerate(mutgen.NFILES):
         out.append(make_input("nfile", nf, "enum_nfile", "nfile%d" % i, ig=i % len(IG_OPTS)))
+    # command-line definitions: every head (object-like, function-like, odd) x every hostile body, used from #if,
+    # #if NAME(1), #elif, a macro argument and plain text
+    for i, (lab, ds) in enumerate(mutgen.def_enumeration()):
+        for t in (("def:pf", "def:pfE", "def:ig") if tier == "thorough" else (("def:pf",) if i % 3 else ("def:pf", "def:ig", "def:pfE"))):
+            out.append(make_input(t, b"", "enum_defprobe", lab, defines=ds, ig=i % len(IG_OPTS), cxx=bool(i % 2)))
     for i, ds in enumerate(mutgen.DEFINES):
         out.append(make_input("def:pf" if i % 2 else "def:ig", b"", "enum_def", "def%d" % i, defines=ds, ig=i % len(IG_OPTS)))
     for n, data in mutgen.corpus(core.build("asan").src):
@@ -806,6 +811,8 @@ def run_fuzz_case(ctx, case):
     nseed = 0
     fam = [x[1] for x in mutgen.self_ref_files()] + [t for _, t in mutgen.BRACKET_SNIPPETS] + \
           [x[1] for x in mutgen.macro_cycle_files()[::6]] + [x[1] for x in mutgen.pp_sequence_files()[::8]]
+    fam += [b"#define W(x) x\n#define PROBE " + body + b"\n#if PROBE\n#endif\nint p = PROBE;\n"
+            for body in mutgen.DEF_BODIES[::3] if b"\n" not in body]
     rngf = random.Random("C15-fuzzfam:%s" % case["sub"])
     rngf.shuffle(fam)
     for i, data in enumerate(fam[:60]):       # a different third of the structural families per job
